@@ -281,6 +281,21 @@ func init() {
 				segCase(cw, bb, plain, []int{len(plain) - 7}, fmt.Sprintf("max-reply blocks=%d rest+7", len(plain)/32), &base)
 			}
 		}
+		// the largest replies one byte per read (more reads than the largest frame has bytes, padding included)
+		for _, dataLen := range []int{65521, 65508} {
+			ms := []rscp.Message{{Tag: rscp.INFO_SERIAL_NUMBER, DataType: rscp.CString, Value: strings.Repeat("z", dataLen)}}
+			plain := plainFrame(ms, dataLen%2 == 1, g.time())
+			var cuts []int
+			for c := 1; c < len(plain); c++ {
+				cuts = append(cuts, c)
+			}
+			base := ""
+			segCase(cw, 2049, plain, nil, fmt.Sprintf("max-reply blocks=%d one-piece", len(plain)/32), &base)
+			segCase(cw, 1, plain, cuts, fmt.Sprintf("max-reply blocks=%d byte-by-byte", len(plain)/32), &base)
+			if thorough {
+				segCase(cw, 2049, plain, cuts, fmt.Sprintf("max-reply blocks=%d byte-by-byte big-buffer", len(plain)/32), &base)
+			}
+		}
 		_ = time.Now
 	}
 	replayers["recv"] = func(op string) string {
